@@ -262,7 +262,10 @@ Qed.
 
 Lemma step_pop_inv idxchk l s p o q :
   world_ok l -> In s l -> ptr_inv s p -> rep_ok s o = true ->
-  (match o with OpField off => field_safe s p off = true | _ => True end) ->
+  (match o with
+   | OpField off => field_safe s p off = true
+   | OpElem i len elsz => field_safe s p (i * elsz) = true
+   | _ => True end) ->
   (idxchk = true \/ p <> 0) ->
   step_pop idxchk l s p o = Ok q -> ptr_inv s q.
 Proof.
@@ -279,6 +282,10 @@ Proof.
       destruct (same_sbx l p (arith_target false p n stride)) eqn:E; cbn [check bind] in H; [|discriminate].
       inversion H; subst. apply (same_sbx_in l s p _ Hw Hin Hp); assumption.
   - (* field *) intros H; inversion H; subst. unfold field_safe in Hf.
+    apply andb_prop in Hf as [_ Hf]. right; exact Hf.
+  - (* element of an array through a pointer *)
+    unfold arr_index. destruct ((0 <=? i) && (wrap (unsigned_of IULong) i <? len)); cbn [check bind]; [|discriminate].
+    intros H; inversion H; subst. unfold field_safe in Hf.
     apply andb_prop in Hf as [_ Hf]. right; exact Hf.
   - (* cast *) intros H; inversion H; subst; assumption.
   - (* load pointer cell *)
